@@ -3,11 +3,15 @@
 # the files on disk (a no-op when the build cache is warm) and runs it.
 set -e
 export GOFLAGS=-mod=mod GOPROXY=off GOSUMDB=off GOTOOLCHAIN=local
+case "$2" in
+  /*|"") ARG2="$2" ;;
+  *) if [ "$1" = replay ]; then ARG2="$(pwd)/$2"; else ARG2="$2"; fi ;;
+esac
 cd /verif/mc
 mkdir -p /verif/bin
 go build -o /verif/bin/vmc ./cmd/vmc
 case "$1" in
   setup) go build -o /verif/bin/vh-warm ./cmd/vh && rm -f /verif/bin/vh-warm; exit 0 ;;
-  replay) exec /verif/bin/vmc replay "$2" ;;
+  replay) exec /verif/bin/vmc replay "$ARG2" ;;
   *) exec /verif/bin/vmc check "$1" "${2:-quick}" ;;
 esac
